@@ -243,6 +243,7 @@ def run_unit(unit_name, tier="quick", repo=None, workdir=None, rlimit_factor=1, 
         res["cmd"] = " ".join(["verus", "<extracted %s.rs>" % base] + m.get("cmd", [])[2:])
         res["functions"] = u.functions
         res["rewrites"] = u.rewrites
+        res["skipped_rewrites"] = [w for w in getattr(u, "skipped_rewrites", []) if not w.get("optional")]
         res["dropped"] = u.dropped
         res["trusted"] = scan_trusted(u.text)
         res["sources"] = sorted(u.sources)
